@@ -82,6 +82,11 @@ def run(chk):
             kr = c01.knot_rule(F, E, M)
             chk.ob("C14-R1", "%s: knot k = start time + (durations 0..k-1), for every k in [0, N]" % cls, kr["size"] and kr["first"] and kr["prefix"], loc(kr["fn"]), kr["det"], construct=cls + "/knots/shift")
     chk.floor("C14-R1", 100)
+    if any(not o["ok"] for o in chk.obs if o["rule"] == "C14-R1"):
+        # the algebraic rules below assume that the durations are the only way time enters the numeric routines; with that
+        # broken they would be run on expressions in differences of knot times (and the violation is already definite)
+        chk.note("R2-R7 skipped: C14-R1 found a numeric routine reading the knot times (or a knot routine of another shape)")
+        return
     # ---- R6 sufficiency premise: the invariances follow from R2-R5 *because* the spline is the unique minimiser of its
     # data; that is C02's system / elimination obligations, re-derived here per class (a solver that drops the end state
     # for N = 2 is no longer mirror symmetric although every block still is)
